@@ -14,7 +14,7 @@ RULE = ("cases are programs (all enumerated control-flow skeletons to depth 2 (q
         "instruction carry the same number of open block frames, ret/ret_mod are the only exits; a second fixpoint tracks the "
         "operand-stack depth as an interval per instruction (calls leave 0 or 1 operand) and reports instructions whose exact "
         "or minimum operand requirement is DEFINITELY missed, `ret` with more than one operand and unbounded operand growth; "
-        "additionally the program is run and must not end in STACK MISMATCH. evaluations = functions analysed. Non-trivial = a function with a jmp_pop closing "
+        "additionally the program is run with the execution-trace hook: every EXECUTED instruction of a single-module program must find the operands it requires (exact depth) and be reached with the statically computed number of open block frames, and the run must not end in STACK MISMATCH. evaluations = functions analysed. Non-trivial = a function with a jmp_pop closing "
         ">= 2 frames or a return below >= 2 open block frames; distinct by instruction-stream hash")
 ASSUMPTIONS = ["opcode effects on block frames as read from bytecode/src/instruction.rs and Function::run at the pinned commit; "
                "an unknown opcode is treated as frame-neutral fall-through",
@@ -248,7 +248,55 @@ def analyse(instrs):
                 go(ip + 1, d, ip)
         except (ValueError, IndexError):
             viol.append("instruction #%d (%s): malformed arguments %r" % (ip, name, args))
+    analyse.last_depths = depth_at
     return viol, len(depth_at), max_pop, max_ret_depth
+
+
+_ids = None
+
+
+def opcode_names():
+    """opcode number -> instruction name, read from the working tree"""
+    global _ids
+    if _ids is None:
+        import re
+        text = open(os.path.join(os.environ.get("VERIF_REPO", "/repo"), "bytecode", "src", "instruction_constants.rs")).read()
+        block = text[text.index("generate_consts! {"):]
+        _ids = {int(m.group(2)): m.group(1).lower() for m in re.finditer(r"^\s*([A-Z_0-9]+)\s+(\d+)\s*$", block, re.M)}
+    return _ids
+
+
+def check_trace(trace_text, funcs, depths):
+    """dynamic cross-check (hook MSCRIPT_VERIF_TRACE): every EXECUTED instruction must find the operands it requires and must
+    be reached with the number of open block frames the static analysis computed. -> (violations, instructions checked)"""
+    names = opcode_names()
+    out, n, seen = [], 0, set()
+    for line in trace_text.split("\n"):
+        parts = line.rsplit(" ", 4)
+        if len(parts) != 5:
+            continue
+        try:
+            fn, ip, op, operands, blocks = parts[0], int(parts[1]), int(parts[2]), int(parts[3]), int(parts[4])
+        except ValueError:
+            continue                           # a line cut short when the watchdog killed a long-running program
+        instrs = funcs.get(fn)
+        if instrs is None or ip >= len(instrs) or names.get(op) != instrs[ip][0]:
+            return [], -1                      # the trace does not line up with the text bytecode: no verdict
+        key = (fn, ip, operands, blocks)
+        if key in seen:
+            continue
+        seen.add(key)
+        n += 1
+        name, args = instrs[ip]
+        v, _ = operand_effect(name, args, operands, operands)
+        if v and v != "UNKNOWN":
+            out.append("%s instruction #%d (%s) executed with %d operand(s): %s" % (fn, ip, name, operands, v))
+        d = depths.get(fn, {}).get(ip)
+        if d is not None and d != blocks:
+            out.append("%s instruction #%d (%s) executed with %d open block frame(s), every static path has %d" % (fn, ip, name, blocks, d))
+        if len(out) >= 4:
+            break
+    return out, n
 
 
 @scenario.assert_kind("c09_wellformed")
@@ -257,14 +305,18 @@ def a_wf(a, res, ctx):
     if comp.klass != "ok":
         return None            # rejected programs have no bytecode; not this property's concern
     out = []
-    stats = {"functions": 0, "states": 0, "nt": []}
-    for p in sorted(glob.glob(os.path.join(ctx["cwd"], "**", "*.mmm"), recursive=True)):
+    stats = {"functions": 0, "states": 0, "nt": [], "traced": 0}
+    modules = sorted(glob.glob(os.path.join(ctx["cwd"], "**", "*.mmm"), recursive=True))
+    all_funcs, all_depths = {}, {}
+    for p in modules:
         try:
             text = open(p, encoding="utf-8").read()
         except UnicodeDecodeError:
             continue
         for fname, instrs in parse_text_bytecode(text).items():
             viol, states, max_pop, max_ret = analyse(instrs)
+            all_funcs[fname] = instrs
+            all_depths[fname] = dict(analyse.last_depths) if not viol else {}
             if not viol:
                 viol = ["operands: " + v for v in analyse_operands(instrs)]
             stats["functions"] += 1
@@ -273,6 +325,12 @@ def a_wf(a, res, ctx):
                 stats["nt"].append(hashlib.blake2b(repr(instrs).encode(), digest_size=8).hexdigest())
             for v in viol[:3]:
                 out.append("%s#%s: %s" % (os.path.basename(p), fname, v))
+    trace_file = os.path.join(ctx["root"], "trace.txt")
+    if len(modules) == 1 and not out and os.path.exists(trace_file):
+        # function names are unique within one module only: the dynamic cross-check is applied to single-module programs
+        tv, n = check_trace(open(trace_file, encoding="utf-8", errors="replace").read(), all_funcs, all_depths)
+        stats["traced"] = n
+        out += ["trace: " + v for v in tv]
     ctx["c09_stats"] = stats
     run = res.get("run")
     if run is not None and "STACK MISMATCH" in run.stderr:
@@ -282,7 +340,7 @@ def a_wf(a, res, ctx):
 
 def make_scenario(files, entry="main.ms"):
     return {"files": {"p/q/r/" + k: v for k, v in files.items()}, "cwd": "p/q/r",
-            "steps": [{"id": "run", "argv": ["mscript", "run", entry, "-q"]},
+            "steps": [{"id": "run", "argv": ["mscript", "run", entry, "-q"], "env": {"MSCRIPT_VERIF_TRACE": "{ROOT}/trace.txt"}},
                       {"id": "compile", "argv": ["mscript", "compile", entry, "--output-format", "raw-text", "--quick"]}],
             "asserts": [{"kind": "c09_wellformed"}]}
 
@@ -299,13 +357,14 @@ def check(case):
         cwd = os.path.join(root, sc["cwd"])
         results = {}
         for stp in sc["steps"]:
-            results[stp["id"]] = execu.run_cmd(stp["argv"], cwd, None, 10.0)
+            env = {k: v.replace("{ROOT}", root) for k, v in stp["env"].items()} if stp.get("env") else None
+            results[stp["id"]] = execu.run_cmd(stp["argv"], cwd, env, 10.0)
         ctx = {"root": root, "cwd": cwd, "sc": sc}
         f = a_wf(sc["asserts"][0], results, ctx)
-        stats = ctx.get("c09_stats", {"functions": 0, "states": 0, "nt": []})
+        stats = ctx.get("c09_stats", {"functions": 0, "states": 0, "nt": [], "traced": 0})
     finally:
         shutil.rmtree(root, ignore_errors=True)
-    labels = ["family=" + case["family"]]
+    labels = ["family=" + case["family"], "trace=" + ("checked" if stats.get("traced", 0) > 0 else "not-lined-up" if stats.get("traced", 0) < 0 else "none")]
     if results["compile"].klass != "ok":
         labels.append("rejected-at-compile-time")
     r = CaseResult(evals=max(1, stats["functions"]), nt_keys=stats["nt"], labels=labels,
@@ -314,7 +373,7 @@ def check(case):
         r.rejected = case["family"] != "corpus"
     if f:
         kinds = sorted(set(("falls-off" if "falls off" in x else "outside" if "outside the function" in x else "closes-too-many" if "closes more" in x
-                            else "operands" if "operands: " in x else "depth-mismatch" if "open block frames" in x else "stack-mismatch" if "STACK MISMATCH" in x else "malformed") for x in f))
+                            else "trace" if x.split(": ", 1)[-1].startswith("trace: ") or "trace: " in x else "operands" if "operands: " in x else "depth-mismatch" if "open block frames" in x else "stack-mismatch" if "STACK MISMATCH" in x else "malformed") for x in f))
         r.failure = fail("%s: %s" % (case.get("origin", case["family"]), "; ".join(f[:4])) + "\n" + files.get(entry, "")[-1200:], "C09:" + ",".join(kinds), sc,
                          case={"origin": case.get("origin", case["family"])})
     return r
